@@ -437,6 +437,7 @@ func safeAt(t tensor.Tensor, c []int) (v interface{}, err error) {
 
 // compareAt sweeps every coordinate of want and compares with t.At.
 func compareAt(t tensor.Tensor, want Arr, eq func(a, b interface{}) bool) string {
+	censusObserve(t)
 	if len(want.Shape) == 0 || t.Shape().IsScalar() {
 		var v interface{}
 		if t.Shape().IsScalar() {
